@@ -126,7 +126,7 @@ PROPS['C09'] = {
     'queries': [
         _c09('latch_P2', 'lat_'), _c09('barrier_P2', 'bar_', unwind=4), _c09('event_T3', 'evt_'), _c09('call_once_T2', 'onc_'),
         _c09('barrier_P3_1phase', 'bar_', 3, unwind=4, timeout=3000, defs=['-DNPHASE=1']),
-        _c09('barrier_drop_P2', 'bard_', unwind=4), _c09('call_once_throwing_T2', 'oncx_', tiers=('thorough',), unwind=4, timeout=3600),
+        _c09('barrier_drop_P2', 'bard_', tiers=('thorough',), unwind=4, timeout=3600), _c09('call_once_throwing_T2', 'oncx_', tiers=('thorough',), unwind=4, timeout=3600),
         _c09('latch_P3', 'lat_', 3, ('thorough',), timeout=7000), _c09('barrier_P3', 'bar_', 3, ('thorough',), R=4, unwind=5, timeout=3600, mem_gb=40),
     ],
 }
